@@ -20,7 +20,17 @@ import (
 	"verif/pk"
 )
 
-const root = "/verif"
+var root = func() string {
+	if r := os.Getenv("VERIF_ROOT"); r != "" {
+		return r
+	}
+	if wd, err := os.Getwd(); err == nil {
+		if _, err := os.Stat(filepath.Join(wd, "properties.jsonl")); err == nil {
+			return wd
+		}
+	}
+	return "/verif"
+}()
 
 type Job struct {
 	Name    string
